@@ -1240,3 +1240,25 @@ def value_hook(cz, v, depth):
 def len_bounds(P, B):
     """extra constraints for the bounded counter-model search: keep sequences short"""
     return [s.length <= max(4, B // 2) for s in getattr(P, 'seqs', [])]
+
+
+# --------------------------------------------------------------------------- message text (not modelled)
+
+def is_message_join(node) -> bool:
+    """`'sep'.join(<comprehension>)`: text of an exception message.  Like f-strings it is not
+    evaluated (evidence assumption: 'exception messages, f-strings, repr and logging are not modelled')."""
+    f = node.func
+    return (isinstance(f, ast.Attribute) and f.attr == 'join' and isinstance(f.value, ast.Constant)
+            and isinstance(f.value.value, str) and len(node.args) == 1 and not node.keywords
+            and isinstance(node.args[0], (ast.GeneratorExp, ast.ListComp)))
+
+
+_STR_TAGS = ('fstring', 'str', 'repr')
+
+
+def opaque_binop(op, a, b):
+    def strlike(x):
+        return isinstance(x, str) or (isinstance(x, Opaque) and (x.tag in _STR_TAGS or x.tag.endswith(':str')))
+    if op is ast.Add and strlike(a) and strlike(b):
+        return Opaque('str')
+    raise Unsupported(f'binop {op.__name__} on opaque values {a!r}, {b!r}')
